@@ -376,6 +376,11 @@ func exprS6(emit func(stratum string, e *E)) {
 	inner := func(typ string) []*E {
 		a, b := pools[typ][0], pools[typ][1]
 		out := []*E{a, tern(T, a, b), tern(F, a, b), tern(vr("z"), a, b), bin("?:", vr("n"), a), bin("?:", a, b), bin("?:", vr("und"), b)}
+		// a compile-time global of the needed type in every argument position (globals are substituted
+		// by a tree walk: every position must be reached)
+		if a.K == "lit" {
+			out = append(out, glob("G.pos."+typ, a.Val), bin("?:", glob("G.pos."+typ, a.Val), b))
+		}
 		switch typ {
 		case "num", "flt", "idx":
 			out = append(out, bin("+", a, b), bin("-", a, b), bin("*", a, b), un("-", a), bin("%", lit("7", data.Int(7)), lit("4", data.Int(4))))
